@@ -1563,6 +1563,22 @@ fn cmd_fuzz(args: &[String]) {
             }
         }
     }
+    // REALM / NONCE written with quotes or white space on the wire (an encoder never does that) and made
+    // of the two-byte characters the crate's quoted-string grammar accepts, behind 0-3 ASCII bytes
+    for t in [obs::T_REALM, obs::T_NONCE] {
+        for lead in 0..4usize {
+            for (pre, suf) in [("\"", "\""), (" ", ""), ("", " "), (" \"", "\" "), ("\t", "\t")] {
+                for n in [5usize, 14, 15, 16, 17, 40] {
+                    let text = format!("{}{}{}{}", pre, "a".repeat(lead), "\u{c3}\u{a9}".repeat(n), suf);
+                    let mut id = [0u8; 12];
+                    rng.fill(&mut id);
+                    let bytes = obs::build(1, obs::CLASS_ERROR, &id, &[Item::Raw(t, text.into_bytes())]);
+                    writeln!(f, "{}", fuzz_record(&bytes)).unwrap();
+                    count += 1;
+                }
+            }
+        }
+    }
     // large messages (up to the 64 KiB a STUN message can be) join the corpus that is mutated
     {
         let id = [5u8; 12];
